@@ -11,6 +11,7 @@ import (
 	"runtime/debug"
 	"sort"
 	"strings"
+	"sync/atomic"
 	"time"
 
 	"github.com/klev-dev/klevdb"
@@ -163,6 +164,8 @@ func errClass(err error) string {
 // Executor
 
 type Exec struct {
+	progress atomic.Int64 // events emitted + steps started: the watchdog's notion of "still working"
+
 	h    *History
 	dir  string
 	l    klevdb.Log
@@ -199,6 +202,7 @@ func (x *Exec) emit(ev string, m map[string]any) {
 	m["ev"] = ev
 	m["hid"] = x.h.ID
 	m["opi"] = x.opi
+	x.progress.Add(1)
 	x.out.Emit(m)
 }
 
@@ -320,14 +324,30 @@ func (x *Exec) Run() {
 			x.l = nil
 		}
 	}()
-	select {
-	case <-done:
-	case <-time.After(120 * time.Second):
-		// a sequential call that never returns; the goroutine is abandoned (it is blocked)
-		x.dead = true
-		x.emit("hang", map[string]any{"what": "call did not return within 120s"})
+	// a sequential call that never returns: no event and no step for 120 s (a long history on a loaded machine
+	// keeps making progress); the goroutine is abandoned (it is blocked)
+	last, idle := x.progress.Load(), 0
+	for {
+		select {
+		case <-done:
+			return
+		case <-time.After(time.Second):
+		}
+		if p := x.progress.Load(); p != last {
+			last, idle = p, 0
+			continue
+		}
+		if idle++; idle >= 120 {
+			x.dead = true
+			seqHangs.Add(1)
+			x.emit("hang", map[string]any{"what": "call did not return within 120s"})
+			return
+		}
 	}
 }
+
+// seqHangs: histories that ended in a call that never returned (each is recorded and rejected by the trace spec).
+var seqHangs atomic.Int64
 
 func (x *Exec) step(op *Op) {
 	defer func() {
@@ -340,6 +360,7 @@ func (x *Exec) step(op *Op) {
 		}
 	}()
 	x.nOps++
+	x.progress.Add(1)
 	switch op.Op {
 	case "open":
 		if x.l != nil {
@@ -370,6 +391,12 @@ func (x *Exec) step(op *Op) {
 		err := x.l.Close()
 		x.l = nil
 		x.emit("close", map[string]any{"err": errClass(err), "errs": errStr(err), "j": x.obs.JudgeOpen})
+		if x.obs.Stat { // the package-level Stat of the closed directory
+			st, serr := klevdb.Stat(x.dir, klevdb.Options{KeyIndex: x.h.Keys, TimeIndex: x.h.Times})
+			ns, sz := fsTotals(x.dir)
+			x.emit("stat", map[string]any{"messages": st.Messages, "segments": st.Segments, "size": st.Size,
+				"fsSegments": ns, "fsBytes": sz, "err": errClass(serr), "errs": errStr(serr), "closed": true})
+		}
 		if x.obs.JudgeLayout {
 			x.emitLayout(true)
 		}
